@@ -1,3 +1,95 @@
-(* placeholder: theorems follow *)
-From CC Require Import Model.Circuit.
-Example C20_model_runs : True. Proof. exact I. Qed.
+(* C20 — For any sequence of constructions, analyses, queries and transformations performed in one process, each result
+   equals the result obtained for the same description in isolation.  No analysis, transformation or loader mutates the
+   network, circuit, component or dictionary objects passed to it.
+   Statements only; every proof is [exact <lemma>].  Model: Model/Heap.v — a pool [list obj] of shared argument objects,
+   [step : pool -> op -> pool * result]; a history is [run] (a fold_left threading the pool), the isolated evaluation of
+   a call is [iso s0 op] = its result on the initial pool.
+   What the model covers: object VALUES in the pool (descriptions, networks, exemption lists, labels); the loaders write
+   the post-state of their argument back; the bias-point solver, its queries and the nine network transformers are pure
+   functions in the model by construction (Model/Network.v, Model/Transformers.v are functional programs), so for them
+   the frame property is a property of the modelling, discharged on the implementation side by the history harness
+   (harness/c20.py: deep fingerprints of every pool object and of library defaults after every call, fresh-process
+   isolated evaluation).  Not modelled: module-level state of the library, default-argument objects, object identity /
+   aliasing between pool objects. *)
+From Coq Require Import List Bool ZArith NArith QArith Qcanon String.
+From CC Require Import Theory.Field Theory.Complex Theory.Labels Model.Network Model.Transformers Model.Codec Model.Circuit
+  Model.RunCircuit Model.Loaders Theory.LoadersThm Model.Heap Theory.HistoryThm.
+Import ListNotations.
+
+(* ================= A. the history theorem (any object, operation and result types, any step function) ================= *)
+(* if no operation changes the pool, every result of the history is the result of the same call in isolation *)
+Theorem C20_history : forall (obj op result : Type) (step : list obj -> op -> list obj * result),
+  (forall o, Frame obj op result step o) ->
+  forall s0 ops, map snd (run obj op result step s0 ops) = map (iso obj op result step s0) ops.
+Proof. exact history. Qed.
+Print Assumptions C20_history.
+(* it suffices that the operations actually performed are frame-preserving; the pool at the end is the initial pool *)
+Theorem C20_history_restricted : forall (obj op result : Type) (step : list obj -> op -> list obj * result) s0 ops,
+  (forall o, In o ops -> Frame obj op result step o) ->
+  map snd (run obj op result step s0 ops) = map (iso obj op result step s0) ops /\ final obj op result step s0 ops = s0.
+Proof. exact history_restricted. Qed.
+Print Assumptions C20_history_restricted.
+(* whatever was called before a call is immaterial to its result *)
+Theorem C20_prefix_irrelevant : forall (obj op result : Type) (step : list obj -> op -> list obj * result),
+  (forall o, Frame obj op result step o) ->
+  forall s0 before o, map snd (run obj op result step s0 (before ++ [o])) = map (iso obj op result step s0) before ++ [iso obj op result step s0 o].
+Proof. exact history_prefix_irrelevant. Qed.
+Print Assumptions C20_prefix_irrelevant.
+
+(* ================= B. the operations of the model ================= *)
+(* loaders (load_network, to_complex, dictify_all, undictify_all, generate_component, undictify_circuit) in
+   state-passing style; solve + four queries; the nine transformers with shared exemption lists *)
+Theorem C20_no_mutation : forall (R : fops) (leb : R -> R -> bool) (pi : R) (cis : R -> R * R) (o : op),
+  Frame (obj R) op (result R) (step_model R leb pi cis) o.
+Proof. exact step_frame. Qed.
+Print Assumptions C20_no_mutation.
+Theorem C20_model_history : forall (R : fops) (leb : R -> R -> bool) (pi : R) (cis : R -> R * R) (s0 : list (obj R)) (ops : list op),
+  map snd (run (obj R) op (result R) (step_model R leb pi cis) s0 ops) = map (iso (obj R) op (result R) (step_model R leb pi cis) s0) ops
+  /\ final (obj R) op (result R) (step_model R leb pi cis) s0 ops = s0.
+Proof. exact model_history. Qed.
+Print Assumptions C20_model_history.
+
+(* ================= C. the frame hypothesis is needed: the loader before fix 6828b52 ================= *)
+Definition qpi : Qc := qc 355 113.
+Definition qcis (x : Qc) : Qc * Qc := (1%Qc, 0%Qc).
+Definition qn (n : Z) (d : positive) : jval Qcops := JNum (qc n d : Qcops).
+Definition ex_pool : list (obj Qcops) := [
+  ODoc (JList [
+    JDict [(s_type, JStr (lbl "real_voltage_source")); (s_id, JStr (lbl "U")); (s_N1, JStr (lbl "1")); (s_N2, JStr (lbl "0")); (s_V, qn 10 1)];
+    JDict [(s_type, JStr (lbl "resistor")); (s_id, JStr (lbl "R1")); (s_N1, JStr (lbl "1")); (s_N2, JStr (lbl "0")); (s_R, qn 5 1)]]);
+  OLabel (lbl "R1")]%string.
+(* outcome of a result: 0 = a value, otherwise the code of the exception class (Model/Codec.v; 13 = FileExistsError) *)
+Definition res_tag {A} (r : res A) : Z := match r with Ok _ => 0%Z | Err e => err_code e end.
+Definition tag (r : result Qcops) : Z :=
+  match r with
+  | RNet r => res_tag r | RCplx r => res_tag r | RDoc r => res_tag r | RComp r => res_tag r | RCircuit r => res_tag r
+  | RSol r => res_tag r | RVal r => res_tag r | RWrongArgument => (-1)%Z
+  end.
+Definition ex_history : list op := [LoadNetwork 0; LoadNetwork 0].
+(* with the pre-fix loader (its step pops the keys of the caller's entries) loading the same object twice in one process
+   succeeds, then raises; in isolation both calls succeed: the conclusion of C20_history fails ... *)
+Example C20_frame_needed :
+  map tag (map snd (run (obj Qcops) op (result Qcops) (step_prefix Qcops Qc_leb qpi qcis) ex_pool ex_history)) = [0; 13]%Z
+  /\ map tag (map (iso (obj Qcops) op (result Qcops) (step_prefix Qcops Qc_leb qpi qcis) ex_pool) ex_history) = [0; 0]%Z.
+Proof. vm_compute. split; reflexivity. Qed.
+Example C20_frame_needed_neq :
+  map snd (run (obj Qcops) op (result Qcops) (step_prefix Qcops Qc_leb qpi qcis) ex_pool ex_history)
+  <> map (iso (obj Qcops) op (result Qcops) (step_prefix Qcops Qc_leb qpi qcis) ex_pool) ex_history.
+Proof. apply (map_neq tag). vm_compute. discriminate. Qed.
+(* ... while with the loader of today the same history gives the isolated results (an instance of C20_model_history), and
+   a longer one mixing loaders, the solver, queries and transformers returns what each call returns alone *)
+Definition ex_history2 : list op :=
+  [LoadNetwork 0; LoadNetwork 0; DictifyAll 0; UndictifyAll 0; LoadNetwork 0; Voltage 0 1; LoadNetwork 0].
+Example C20_example_today :
+  map tag (map snd (run (obj Qcops) op (result Qcops) (step_model Qcops Qc_leb qpi qcis) ex_pool ex_history)) = [0; 0]%Z
+  /\ map tag (map snd (run (obj Qcops) op (result Qcops) (step_model Qcops Qc_leb qpi qcis) ex_pool ex_history2))
+     = map tag (map (iso (obj Qcops) op (result Qcops) (step_model Qcops Qc_leb qpi qcis) ex_pool) ex_history2).
+Proof. vm_compute. split; reflexivity. Qed.
+(* dump_load.undictify_complex_values — the helper under undictify_all — rewrites the dictionary it is given in place (its
+   post-state differs from its argument); it is only ever handed a dictionary built inside undictify_all, which is why
+   undictify_all itself satisfies the frame property (C17_no_mutation_others).  Called directly on a caller's dictionary
+   it is not frame-preserving: *)
+Example C20_undictify_values_writes_in_place :
+  let d : dict (jval Qcops) := [(lbl "z", JDict [(s_real, qn 1 1); (s_imag, qn 2 1)])]%string in
+  jval_eqb Qcops (JDict (snd (undictify_values_st Qcops Qc_leb qpi qcis d))) (JDict d) = false.
+Proof. vm_compute. reflexivity. Qed.
